@@ -12,8 +12,8 @@ CLAIMED = {
  'C16': dict(
    technique='contract-based deductive verification: AST symbolic executor (pyvc) over the real _serialize_large_model / _process_constant_map (bytes as integer lists, while loops cut by invariants, ghost layout function with induction lemmas), typed quantifier instantiation -> QF VCs (z3)',
    level='proof',
-   text='For any number of buffers and any data lengths: the constant map is index-aligned with the buffers; after the two passes every data-bearing buffer has a 16-byte aligned offset, size = data length, its region is in bounds, regions are increasing and disjoint, the region holds exactly the constant, buffers without data are untouched, the total length is a multiple of 16; pass 2 reproduces the lengths of pass 1 (ghost layout function L). The size threshold selects the path on the same model object.',
-   note='ASSUMED contract of the external serializer (length independent of the values of non-zero offset/size fields; its applicability - fields non-zero at both calls - is a discharged call-site obligation, hence the precondition that constants are non-empty). Partial correctness (termination of the padding loops not verified). Interpreter load / identical outputs only by the bounded stand-in through the AI_EDGE_QUANTIZER_VERIF hook.',
+   text='For any number of buffers and any data lengths: the constant map is index-aligned with the buffers; after the two passes every buffer with at least one byte of data has a 16-byte aligned offset, size = data length, its region is in bounds, regions are increasing and disjoint, the region holds exactly the constant, buffers without data and zero-length constants are untouched (the latter stay embedded: repository fix 45a6991), the total length is a multiple of 16; pass 2 reproduces the lengths of pass 1 (ghost layout function L). The size threshold selects the path on the same model object.',
+   note='ASSUMED contract of the external serializer (length independent of the values of non-zero offset/size fields; its applicability - fields non-zero at both calls - is a discharged call-site obligation, for every externalised buffer; the former precondition "constants are non-empty" is gone). Partial correctness (termination of the padding loops not verified). Interpreter load / identical outputs only by the bounded stand-in through the AI_EDGE_QUANTIZER_VERIF hook.',
    design='§4 C16'),
  'C17': dict(
    technique='contract-based deductive verification: CPython-executed symbolic arrays over the real numpy code -> QF nonlinear real/integer VCs (z3, cvc5), IEEE binary32 VCs for finiteness; spec-level lemma chains',
@@ -33,8 +33,8 @@ CLAIMED.update({
    technique='contract-based deductive verification: AST symbolic executor over the real functions with sidecar contracts (Boogie-style heap, loop invariants, calls by contract), typed quantifier instantiation -> QF VCs (z3); bounded-scope refutation + native replay',
    level='proof',
    text='Well-formedness (indices in range, single producer, execution order, graph outputs in range, inserted op placed after the producer and before the first consumer) is proved as a postcondition of the real insert_quant / insert_dequant / add_op_code / add_new_activation_tensor for every graph size, operand count and consumer list (ghost producer map; all loops by invariant). '
-        'The generator->performer composition and name uniqueness are covered only by labelled bounded stand-ins.',
-   note='Unchecked: LiteRT allocate/invoke (external runtime); flatbuffer serializer fidelity; object-API classes modelled as attribute bags; numpy int32 index arrays as int lists. Performer op-id bookkeeping: see evidence (contracts in progress).',
+        'The performer bookkeeping (_create_op_id_map, _update_op_id_map, _apply_single_transformation, _update_instructions), the graph facts every instruction is built from (_tensor_info_generator: one record per tensor, producer = first operator that outputs it, consumers = marker first then every reader once, ascending), model-wide tensor-name uniqueness (_check_tensor_names_are_unique) and uniqueness of inserted names (get_unique_tensor_name) are under contract as well. Consumer grouping / vertical optimisation of the instruction generator and the generator->performer composition are covered only by labelled bounded stand-ins.',
+   note='Unchecked: LiteRT allocate/invoke (external runtime); flatbuffer serializer fidelity; object-API classes modelled as attribute bags; numpy int32 index arrays as int lists. _apply_transformations / transform_graph are dataflow patterns on the real AST. Known finding: LiteRT aborts the process for a 16-bit ADD with a degenerate calibrated output range (replayed in a child process).',
    design='§4 C01'),
  'C11': dict(
    technique='contract-based deductive verification: AST symbolic executor over the real RecipeManager code (ordered-map heap model, nested loop invariants, try/except, calls by contract), typed quantifier instantiation -> QF VCs (z3)',
@@ -57,8 +57,8 @@ CLAIMED.update({
  'C02': dict(
    technique='contract-based deductive verification: AST symbolic executor over the real insert_quant/insert_dequant and TransformationPerformer code with sidecar contracts (whole-view postconditions, frames, ghost op-id invariant), typed quantifier instantiation -> QF VCs (z3)',
    level='proof',
-   text='Skeleton clauses as whole-view postconditions of the real insert_quant/insert_dequant (original operators keep object, order, opcode, outputs; ONLY the listed consumers are rewired, every other operand of every operator unchanged; graph outputs rewired iff the graph-output marker is listed; graph inputs, tensor names/shapes/buffers unchanged) and the op-id bookkeeping of _apply_single_transformation/_update_op_id_map (arguments handed to the transformation are the current positions of exactly the listed operators; map re-established) for all graph sizes. Signature remapping and the generator->performer composition only by the labelled bounded end-to-end stand-in.',
-   note='Unchecked: serializer fidelity; object-API attribute-bag model; _update_instructions/_apply_transformations/transform_graph loops and _remap_signature_outputs are not yet under contract (bounded stand-in through the public API covers them).',
+   text='Skeleton clauses as whole-view postconditions of the real insert_quant/insert_dequant (original operators keep object, order, opcode, outputs; ONLY the listed consumers are rewired, every other operand of every operator unchanged; graph outputs rewired iff the graph-output marker is listed; graph inputs, tensor names/shapes/buffers unchanged) and the op-id bookkeeping of _apply_single_transformation/_update_op_id_map (arguments handed to the transformation are the current positions of exactly the listed operators; map re-established) for all graph sizes. Signature remapping (_remap_signature_outputs: every signature output that named an old graph output names the corresponding new one, for any signature/subgraph arrangement) and _tensor_info_generator are under contract; the generator->performer composition only by the labelled bounded end-to-end stand-in.',
+   note='Unchecked: serializer fidelity; object-API attribute-bag model; _apply_transformations / transform_graph are dataflow patterns on the real AST; consumer grouping and vertical optimisation of the instruction generator only through the bounded stand-in.',
    design='§4 C02'),
  'C18': dict(
    technique='contract-based deductive verification: CPython-executed symbolic arrays (metrics, dequantisation) -> QF VCs (z3); AST symbolic executor (pyvc, ordered-map model with pop) for ComparisonResult.add_new_signature_results, compare_model, validate wiring',
@@ -70,7 +70,7 @@ CLAIMED.update({
    technique='contract-based deductive verification: frame (modifies) clauses and subgraph-local postconditions of the real transformation and performer functions, discharged by z3 via the AST symbolic executor',
    level='proof',
    text='Every heap store of insert_quant/insert_dequant/add_op_code/add_new_activation_tensor is checked against a frame that admits only objects of the instruction\'s own subgraph, the shared op-code table (extended, existing entries fixed) and fresh objects; _update_op_id_map/_apply_single_transformation leave the op-id maps of every other subgraph untouched. Hence the final state of subgraph i is a function of its own instructions.',
-   note='Assumes object graphs of different subgraphs are disjoint. Name-keyed plan generation and shared constants (C15) are not re-proved here; no end-to-end multi-signature comparison yet.',
+   note='Assumes object graphs of different subgraphs are disjoint. Name-keyed plan generation and shared constants (C15) are not re-proved here; the end-to-end comparison (subgraph i of a two-subgraph model vs the stand-alone subgraph, by tensor name) is a labelled bounded stand-in.',
    design='§4 C19'),
  'C03': dict(
    technique='contract-based deductive verification: exhaustive native execution of the real mode-selection function over the finite config skeleton with opaque integers; AST symbolic executor (pyvc) for the list helpers of materialize_standard_op, _get_params_for_no_quant_op, insert_quant/insert_dequant dtype postconditions and the bit-width->dtype tables',
